@@ -77,7 +77,7 @@ def gen(r, tier, i):
     if r.random() < 0.3:
         emit_step = r.choice([0.5, 2, 0.25, 1.5]) if grid == 'dyadic' else float(r.choice(sched.DEC[gprec]['iv']))
     return {'class': cls, 'grid': grid, 'precision': prec, 'gprec': gprec, 't0': t0, 'procs': procs,
-            'calls': calls, 'nsteps': 1 if (cls == 'empty' or r.random() < 0.2) else 0, 'emit_step': emit_step}
+            'calls': calls, 'nsteps': (r.choice([0, 1]) if cls == 'empty' else (1 if r.random() < 0.2 else 0)), 'emit_step': emit_step}
 
 
 def run(spec):
